@@ -4,7 +4,7 @@ SPEC = {
     ],
     "rule": "case = (scheme or variant, key seed, message, context, one alteration of pk / msg / ctx / mode / signature) drawn by rapid over the 10 schemes of sign/schemes, "
             "the 5 package-level Ed25519/Ed448 variants and BLS in both key groups incl. aggregates of 1..4 signers; message lengths at hash-block boundaries; "
-            "alterations: signature bit flip, truncation (incl. by 1..64 bytes), 1..16 appended bytes, doubled, zeroed window, random, S+L on every Edwards scalar, other key, message flip/truncate/extend, "
+            "alterations: signature bit flip, truncation (incl. by 1..64 bytes), 1..16 appended bytes, doubled, zeroed window, window holding an arithmetic progression (on the hint region of Dilithium-family signatures and elsewhere), random, S+L on every Edwards scalar, other key, message flip/truncate/extend, "
             "other context, context >= 256 bytes, other variant (pure/ph/ctx), bit-flipped or resized encoded public key, identity key; thorough adds every single-bit flip and every truncation length of one signature per scheme. "
             "non-trivial = an altered tuple was evaluated by the verifier (and rejected); distinct by FNV-64 of (scheme, alteration, message, signature, key/context identity)",
     "assumptions": COMMON_ASSUME + ["no accept/reject expectation is taken from circl itself: honest tuples must verify, altered ones must not"],
